@@ -25,6 +25,11 @@ type rtStore struct {
 	casOK     int32
 	waits     int32 // WaitForVersionChange calls entered
 	failAt    int32 // fail the k-th CAS (1-based), 0 = none
+	failSet   map[int32]bool // fail these CAS calls (1-based ordinals)
+	delHold   int32          // hold the ANSWER of the k-th Delete (1-based) after applying it, until delResume is closed
+	delCalls  int32
+	delReached chan struct{}
+	delResume  chan struct{}
 	failAfter int32 // "holder death": every CAS from this call number on fails
 	lastCas   atomic.Value
 	// the k-th CAS (holdAt, 1-based) is kept in flight until `resume` is closed, then fails transiently
@@ -55,6 +60,16 @@ func renewalOwner() string {
 	return strings.TrimSpace(rest[:j])
 }
 
+func (s *rtStore) Delete(ctx context.Context, key string) error {
+	n := atomic.AddInt32(&s.delCalls, 1)
+	err := s.Storage.Delete(ctx, key)
+	if n == atomic.LoadInt32(&s.delHold) && s.delResume != nil {
+		close(s.delReached)
+		<-s.delResume
+	}
+	return err
+}
+
 func (s *rtStore) WaitForVersionChange(ctx context.Context, key, ver string) error {
 	atomic.AddInt32(&s.waits, 1)
 	return s.Storage.WaitForVersionChange(ctx, key, ver)
@@ -75,7 +90,7 @@ func (s *rtStore) CasByVersion(ctx context.Context, r kvs.Record) (kvs.Record, e
 		<-s.resume
 		return kvs.Record{}, errors.New("connection reset by peer (injected after the call was held in flight)")
 	}
-	if n == atomic.LoadInt32(&s.failAt) || (atomic.LoadInt32(&s.failAfter) > 0 && n >= atomic.LoadInt32(&s.failAfter)) {
+	if n == atomic.LoadInt32(&s.failAt) || s.failSet[n] || (atomic.LoadInt32(&s.failAfter) > 0 && n >= atomic.LoadInt32(&s.failAfter)) {
 		return kvs.Record{}, errors.New("storage temporarily unavailable (injected)")
 	}
 	res, err := s.Storage.CasByVersion(ctx, r)
@@ -311,6 +326,92 @@ func rtShutdownHeldScenario(lease time.Duration) rtResult {
 	}
 	res.info = fmt.Sprintf("renewals=%d ok=%d", atomic.LoadInt32(&st.casCalls), atomic.LoadInt32(&st.casOK))
 	a.Unlock()
+	return res
+}
+
+// rtTransientsScenario: isolated transient renewal errors over a long hold (the 2nd, 4th and 6th renewal call fail
+// once each, every other one succeeds): the record must be there all the time and a contender stays out.
+func rtTransientsScenario(lease time.Duration) rtResult {
+	res := rtResult{name: fmt.Sprintf("transients lease=%v", lease)}
+	st := &rtStore{Storage: inmem.New(), failSet: map[int32]bool{2: true, 4: true, 6: true}}
+	ph := dist.NewKvsLockProvider(st, "/rt/")
+	pt := dist.NewKvsLockProvider(st, "/rt/")
+	dist.VerifSetLease(ph, lease)
+	dist.VerifSetLease(pt, lease)
+	defer ph.Shutdown()
+	defer pt.Shutdown()
+	h := ph.NewLocker("l")
+	third := pt.NewLocker("l").(tryLocker)
+	h.Lock()
+	t0 := time.Now()
+	bg := context.Background()
+	for time.Since(t0) < 5*lease && atomic.LoadInt32(&st.casCalls) < 9 {
+		if third.TryLock(bg) {
+			res.bad = fmt.Sprintf("a contender acquired the lock %v after the holder did, while the holder (alive; isolated transient renewal errors, each followed by a success) still held it; renewal calls=%d ok=%d", time.Since(t0).Round(time.Millisecond), atomic.LoadInt32(&st.casCalls), atomic.LoadInt32(&st.casOK))
+			third.Unlock()
+			break
+		}
+		if it, err := st.ListKeys(bg, "*"); err == nil && !it.HasNext() {
+			res.bad = fmt.Sprintf("the record of the held lock is gone %v after it was acquired (lease %v) after isolated transient renewal errors; renewal calls=%d ok=%d", time.Since(t0).Round(time.Millisecond), lease, atomic.LoadInt32(&st.casCalls), atomic.LoadInt32(&st.casOK))
+			break
+		}
+		time.Sleep(lease / 50)
+	}
+	res.info = fmt.Sprintf("renewals=%d ok=%d", atomic.LoadInt32(&st.casCalls), atomic.LoadInt32(&st.casOK))
+	h.Unlock()
+	return res
+}
+
+// rtSharedScenario: two goroutines share ONE Locker object.  G1's Unlock is in flight — its Delete has been applied,
+// the answer is on its way — when G2 tries the same Locker (TryLock; if that is refused it waits with Lock); then
+// the answer arrives and G1's Unlock finishes.  G2 holds for three lease periods: whatever G1's Unlock still did
+// must not touch G2's lease.
+func rtSharedScenario(lease time.Duration) rtResult {
+	res := rtResult{name: fmt.Sprintf("shared lease=%v", lease)}
+	st := &rtStore{Storage: inmem.New(), delHold: 1, delReached: make(chan struct{}), delResume: make(chan struct{})}
+	pa := dist.NewKvsLockProvider(st, "/rt/")
+	pt := dist.NewKvsLockProvider(st, "/rt/")
+	dist.VerifSetLease(pa, lease)
+	dist.VerifSetLease(pt, lease)
+	defer pa.Shutdown()
+	defer pt.Shutdown()
+	l := pa.NewLocker("l")
+	third := pt.NewLocker("l").(tryLocker)
+	l.Lock()
+	unlocked := make(chan struct{})
+	go func() { l.Unlock(); close(unlocked) }()
+	select {
+	case <-st.delReached:
+	case <-time.After(3 * lease):
+		res.bad = "Unlock did not reach the storage within 3 lease periods"
+		close(st.delResume)
+		return res
+	}
+	got := false
+	if tl, ok := l.(tryLocker); ok {
+		got = tl.TryLock(context.Background())
+	}
+	close(st.delResume)
+	<-unlocked
+	if !got {
+		l.Lock()
+	}
+	t0 := time.Now()
+	bg := context.Background()
+	for time.Since(t0) < 3*lease {
+		if third.TryLock(bg) {
+			res.bad = fmt.Sprintf("another provider's Locker acquired the lock %v after the second goroutine of the shared Locker did, while it still held it (its acquisition overlapped the first goroutine's Unlock)", time.Since(t0).Round(time.Millisecond))
+			third.Unlock()
+			break
+		}
+		if it, err := st.ListKeys(bg, "*"); err == nil && !it.HasNext() {
+			res.bad = fmt.Sprintf("the record of the held lock is gone %v after the second goroutine of the shared Locker acquired it (its acquisition overlapped the first goroutine's Unlock)", time.Since(t0).Round(time.Millisecond))
+			break
+		}
+		time.Sleep(lease / 40)
+	}
+	res.info = fmt.Sprintf("trylock during unlock=%v renewals=%d", got, atomic.LoadInt32(&st.casCalls))
+	l.Unlock()
 	return res
 }
 
@@ -585,6 +686,30 @@ func runLockRT(ctx *Ctx) {
 		ctx.R.Quiet("mon C05-lease-kept-while-held", rx.name+": "+rx.bad)
 		if strings.Contains(rx.bad, "acquired lock") {
 			ctx.R.Quiet("mon C01-at-most-one-holder", rx.name+": "+rx.bad)
+		}
+	}
+	for _, sc := range []struct {
+		name string
+		f    func(time.Duration) rtResult
+	}{{"transients", rtTransientsScenario}, {"shared", rtSharedScenario}} {
+		rr := sc.f(lease)
+		if rr.bad != "" {
+			if r2 := sc.f(2 * lease); r2.bad == "" {
+				ctx.R.Stats.Notes = append(ctx.R.Stats.Notes, "timing flake discarded: "+rr.name+": "+rr.bad)
+				rr.bad = ""
+			} else {
+				rr.bad = r2.bad
+			}
+		}
+		ctx.R.Case("realtime")
+		ctx.R.Nontrivial(sc.name)
+		ctx.R.Op("scenario "+sc.name+"-1", "ok")
+		ctx.R.Comment(rr.name + ": " + rr.info)
+		if rr.bad != "" {
+			ctx.R.Quiet("mon C05-lease-kept-while-held", rr.name+": "+rr.bad)
+			if strings.Contains(rr.bad, "acquired the lock") {
+				ctx.R.Quiet("mon C01-at-most-one-holder", rr.name+": "+rr.bad)
+			}
 		}
 	}
 	// cancellation exactly at the hand-off, on the real in-memory storage
